@@ -172,6 +172,27 @@ func c12Final(e *driver.Env) {
 		if alive := e.LibTasksAlive(nil); len(alive) > 0 {
 			e.Failf("C12.c", "library goroutine still alive after Join closed its output", "%s", driver.DescribeTasks(alive))
 		}
+		return
+	}
+	// Some input stays open. The output is an interleaving for any arrival
+	// order: nothing is left to happen (quiescence under the fair schedule) and
+	// the consumer is still waiting for more, so every element whose send on
+	// any input has completed must have come out — an open, silent input must
+	// not hold back the others.
+	if s.Out != nil && !s.Out.Closed && !s.Out.Abandoned && !e.Cancelled.Load() && p.X("dup_input") == 0 && len(s.Prods) == len(p.Inputs) {
+		for i := range p.Inputs {
+			n := 0
+			for _, v := range s.Out.Values() {
+				if v/stride == i {
+					n++
+				}
+			}
+			if n < s.Prods[i].Sent {
+				e.Failf("C12.a", "elements sent on one input are held back while another input stays open",
+					"input %d: %d sends completed, %d of its elements delivered; nothing left to happen, the consumer is waiting (delivered %v; inputs %v)", i, s.Prods[i].Sent, n, s.Out.Values(), p.Inputs)
+				return
+			}
+		}
 	}
 }
 
